@@ -101,7 +101,11 @@ func (c08) Cases(tier string, emit func(string, interface{})) {
 				}
 				blocks[bi] = mapped
 			}
-			for _, place := range []string{"onefile", "chain", "star"} {
+			places := []string{"onefile", "chain", "star"}
+			if len(blocks) >= 3 {
+				places = append(places, "tree")
+			}
+			for _, place := range places {
 				emit("split", c08Case{Label: fmt.Sprintf("split %v %s", blocks, place), Split: &c04Case{Members: members, Blocks: blocks, Place: place}, Layout: gen.DefaultLayout})
 			}
 			// the same star placement with the files in directories: absolute root module, imports
@@ -366,6 +370,17 @@ func c08SplitFiles(cs c04Case) (filesCase, map[string][]struct {
 				imp = fmt.Sprintf("import f%d\n", i+1)
 			}
 			put(name, imp, cs.Blocks[i:i+1], i == 0)
+		}
+		files["sup.sysl"] = c04Support()
+	case "tree":
+		imps := "import mid\n"
+		for i := 2; i < len(cs.Blocks); i++ {
+			imps += fmt.Sprintf("import f%d\n", i)
+		}
+		put("r.sysl", imps+"import sup\n", cs.Blocks[:1], true)
+		files["mid.sysl"] = "import f1\n"
+		for i := 1; i < len(cs.Blocks); i++ {
+			put(fmt.Sprintf("f%d.sysl", i), "", cs.Blocks[i:i+1], false)
 		}
 		files["sup.sysl"] = c04Support()
 	default:
